@@ -554,10 +554,14 @@ func (c Component) Hash() uint64 {
 	return h.Sum64()
 }
 
-// HashInto hashes the current component into the hasher
+// HashInto hashes the current component into the hasher.
+// The length of the value is hashed along with the type, so that the input of
+// a sequence of components is uniquely decodable: without it, one component
+// whose value embeds the 8-byte type of another hashes like two components.
 func (c Component) HashInto(h hash.Hash) {
-	tbuf := []byte{0, 0, 0, 0, 0, 0, 0, 0}
-	binary.BigEndian.PutUint64(tbuf, uint64(c.Typ))
+	tbuf := []byte{0, 0, 0, 0, 0, 0, 0, 0, 0, 0, 0, 0, 0, 0, 0, 0}
+	binary.BigEndian.PutUint64(tbuf[:8], uint64(c.Typ))
+	binary.BigEndian.PutUint64(tbuf[8:], uint64(len(c.Val)))
 	h.Write(tbuf)
 	h.Write(c.Val)
 }
